@@ -22,7 +22,8 @@ RULE = ("E1: ('wrap', recipient, key class, selector, form) = full product of 12
         "deterministic search with the reference curve: 1, 2, n-1, X with leading 00 / 04 / FF, Y with leading 00, ECDH shared x with one / two "
         "leading zero bytes. ('blockreuse', key, order) = ONE live block object packed in turn for two recipients of the same selector and with another session key; ('default', selector, key class) = no explicit recipient: the published keys are replaced by test keys (their SHA-256 digests "
         "are pinned against the source constants) and the block for selector s must open with private key s and no other. ('reject', kind, i) = "
-        "(0,0), (x,y+-1), x>=p, y>=p, a secp256k1 point, 32 seed-derived 64-byte strings: EccDecryptor.decrypt must raise.")
+        "(0,0), (x,y+-1), x>=p, y>=p, a secp256k1 point, 32 seed-derived 64-byte strings: EccDecryptor.decrypt must raise."
+        " Added: ('file', order, sel, position, sink) the ECC block taken out of whole written files for every header order with the recipient first / last in the caller's list; ('threads', pairing, direction) the packing of one block suspended at EVERY line event inside bec2format, the plug-in adapter and the key-agreement helper while another block is packed completely in a second thread - each block must open for its own recipient to its own session key.")
 ASSUMPTIONS = [
     "OpenSSL 3 CLI is the independent ECDH oracle; reference AES-CBC is cross-checked elsewhere (C16)",
     "the published recipient keys are identified by the SHA-256 digests of the constants at the pinned commit",
